@@ -749,10 +749,14 @@ namespace sx {
     long k = (long)v;
     z3::expr kk = e.ctx.real_val(std::to_string(k).c_str());
     z3::expr one = e.ctx.real_val(1);
-    if (k > 0) add_pc(t >= kk && t < kk + one);
-    else if (k < 0) add_pc(t <= kk && t > kk - one);
-    else add_pc(t > -one && t < one);
+    z3::expr in_k = k > 0 ? (t >= kk && t < kk + one) : (k < 0 ? (t <= kk && t > kk - one) : (t > -one && t < one));
     e.st.concretisations++;
+    if (e.opt.concretise_enum) {
+      // the integer value is a decision like any other: "it is k" / "it is not k" are both explored (up to K values per site)
+      if (decide(in_k, site)) { e.model_valid = false; return k; }
+      return to_integer(a, site);   // under not(in_k): pick another value
+    }
+    add_pc(in_k);
     e.model_valid = false;
     return k;
   }
